@@ -120,6 +120,8 @@ pub struct JobSpec {
     pub eval_fuel: u64,
     /// use NullFs / StdFs instead of SimFs ("sim" default)
     pub fs_kind: String,
+    /// 0 = no limit on the nesting depth of user-defined callables
+    pub depth_limit: u32,
 }
 
 impl Default for JobSpec {
@@ -140,6 +142,7 @@ impl Default for JobSpec {
             faults: vec![],
             eval_fuel: 10_000_000,
             fs_kind: "sim".into(),
+            depth_limit: 0,
         }
     }
 }
@@ -240,6 +243,7 @@ impl JobSpec {
             "faults": self.faults.iter().map(|f| f.to_json()).collect::<Vec<_>>(),
             "eval_fuel": self.eval_fuel,
             "fs_kind": self.fs_kind,
+            "depth_limit": self.depth_limit,
         })
     }
 
@@ -292,6 +296,7 @@ impl JobSpec {
             faults,
             eval_fuel: v.get("eval_fuel").and_then(|x| x.as_u64()).unwrap_or(10_000_000),
             fs_kind: v.get("fs_kind").and_then(|x| x.as_str()).unwrap_or("sim").to_string(),
+            depth_limit: v.get("depth_limit").and_then(|x| x.as_u64()).unwrap_or(0) as u32,
         })
     }
 }
